@@ -39,6 +39,17 @@ fn one(drv: &mut Drv, rep: &mut Report, source: &str, stream: &[u8], with_spec: 
     rep.hit(&format!("source_{}", source.split(':').next().unwrap_or("")));
     let lib = oracle::decode_rgba(&riff(&chunk(b"VP8L", stream)));
     let spec = if with_spec { Some(drv.ask(&format!("vp8lspec {}", hex(stream)))) } else { None };
+    // the proof-friendly twin of the specification (VP8LP.decode, the one the theorems are about)
+    // must say what the executable specification says
+    if let Some(s) = &spec {
+        if (w as u64) * (h as u64) <= 2500 && stream.len() <= 6000 {
+            let twin = drv.ask(&format!("vp8lspecp {}", hex(stream)));
+            rep.hit("spec_twin_compared");
+            if twin != *s {
+                rep.disagree(Disagreement { case: case.clone(), got: twin, expected: s.clone(), class: "correspondence", obligation: "validation of the proof-friendly specification VP8LP.decode against the executable specification VP8L.decode (not about the code)".into(), detail: source.into() });
+            }
+        }
+    }
     let got = decode_impl(stream, w, h);
     let digest = |b: &[u8]| format!("ok {w} {h} {}/{}", fnv_bytes(FNV_INIT, b), b.len());
     // the references must agree with each other first (validation of the specification)
